@@ -141,6 +141,11 @@ func Programs() []Input {
 	for i, bad := range []string{"1 2 add >", "%!PS\n/before 1 def\ncurrentfile eexec ab", "%!PS\ncurrentfile eexec\n", "/a (unterminated string", "/b <48 6", "{ 1 2 add", "/x 1 def <<", "1 2 add ~>", "3 <~87cUR", "4 <", "5 /", "6 %"} {
 		out = append(out, Input{Name: fmt.Sprintf("ends-abruptly-%d", i), Kind: "ps", Data: []byte(bad)})
 	}
+	// a stray delimiter in the middle: the error (or not) is the same whether or
+	// not the reader has already reported the end of the input when it is met
+	for i, bad := range []string{"1 > 2", "1 >2 3", "1 ) 2", "1 } 2", "1 ] 2", "1 ~> 2", "1 <~ 2", "1 < 2", "(a) > (b) /c", "1 >\n2", "1 >>  2", "1 > > 2", "/a > /b", "1 <z> 2", "1 <~z~> 2"} {
+		out = append(out, Input{Name: fmt.Sprintf("stray-delimiter-%d", i), Kind: "ps", Data: []byte(bad)})
+	}
 	// a long program that crosses several 512-byte refills
 	var long []string
 	for i := 0; i < 260; i++ {
